@@ -59,6 +59,13 @@
 struct lp_msg {
 	/// The next element in the message list (used in the message queue)
 	struct lp_msg *next;
+#ifdef ROOT_SIM_CORE_VERIF
+	/// Shadow fields owned by the external monitors; they live in the preamble, so they are never transmitted
+	uint64_t verif_id;
+	_Atomic uint32_t verif_q;
+	_Atomic uint32_t verif_st;
+	uint64_t verif_aux;
+#endif
 	/// The id of the recipient LP
 	lp_id_t dest;
 	/// The intended destination logical time of this message
